@@ -21,6 +21,7 @@ pub const PKG_VERSION: &str = env!("CARGO_PKG_VERSION");
 
 mod buztable;
 mod c01;
+mod c04;
 mod c09;
 mod c10;
 mod c17;
@@ -28,6 +29,7 @@ mod clonechecks;
 mod clonelab;
 mod codec;
 mod httpd;
+mod isolate;
 mod memdev;
 mod netchecks;
 mod sched;
@@ -51,8 +53,26 @@ fn main() {
     // Discard log output but keep level Info so that log arguments are evaluated as in the CLI.
     log::set_max_level(log::LevelFilter::Info);
     rep::install_panic_hook();
+    // Only plain HTTP on loopback is used: keep reqwest's TLS backend from loading the system CA
+    // bundle for every client it creates (~100 ms each).
+    std::env::set_var("SSL_CERT_FILE", "/dev/null");
+    std::env::set_var("SSL_CERT_DIR", "/nonexistent");
     match args[1].as_str() {
         "sched-worker" => subjects::worker_main(&args[2..]),
+        "iso-worker" => {
+            let wa = isolate::parse_worker_args(&args[2..]);
+            let thorough = wa.tier == "thorough";
+            match wa.kind.as_str() {
+                "c04" => {
+                    let ctx = c04::IsoCtx::new(thorough);
+                    isolate::worker_loop(wa.njobs, wa.offset, wa.stride, wa.start, &wa.skip, &wa.ckpt, &wa.progress, 6, |j, agg| ctx.run_job(j, agg));
+                }
+                k => {
+                    eprintln!("MACHINERY-ERROR unknown iso-worker kind {k}");
+                    std::process::exit(2)
+                }
+            }
+        }
         "run" => {
             let id = args[2].clone();
             let mut tier = "quick".to_string();
@@ -89,6 +109,7 @@ fn main() {
                 "C11" => c01::c11(&mut rep),
                 "C12" => c01::c12(&mut rep),
                 "C17" => c17::run(&mut rep),
+                "C04" => c04::run(&mut rep),
                 "C07" => netchecks::c07(&mut rep),
                 "C08" => netchecks::c08(&mut rep),
                 "C02" => clonechecks::c02(&mut rep),
@@ -111,6 +132,7 @@ fn main() {
                 "C10" => c10::replay(&detail),
                 "C07" | "C08" => netchecks::replay(&id, &detail),
                 "C17" => c17::replay(&detail),
+                "C04" => c04::replay(&detail),
                 "C01" | "C11" | "C12" => c01::replay(&id, &detail),
                 "C02" | "C03" | "C06" | "C13" => clonechecks::replay(&id, &detail),
                 _ => {
